@@ -29,14 +29,70 @@ impl<V> HashMap<String, V> {
     { unimplemented!() }
 }
 
-// BTreeMap<String, String> (the `deps` of a unit)
+// THE sorted sequence of a set of names: what iterating a BTreeMap/BTreeSet yields — a function of the contents
+pub uninterp spec fn canonical(s: Set<Seq<char>>) -> Seq<Seq<char>>;
+pub open spec fn ent_keys<V>(es: Seq<(&String, &V)>) -> Seq<Seq<char>> { Seq::new(es.len(), |i: int| es[i].0@) }
+
+// std::collections::BTreeMap<String, V>: like the HashMap shim, but iteration follows the sorted key order
+#[verifier::external_body]
+#[verifier::reject_recursive_types(K)]
+#[verifier::reject_recursive_types(V)]
+pub struct BTreeMap<K, V> { _k: core::marker::PhantomData<(K, V)> }
+impl<V> BTreeMap<String, V> {
+    pub uninterp spec fn view(&self) -> Map<Seq<char>, V>;
+    #[verifier::external_body]
+    pub fn new() -> (r: Self) ensures r@ == Map::<Seq<char>, V>::empty() { unimplemented!() }
+    #[verifier::external_body]
+    pub fn contains_key<Q: ?Sized>(&self, k: &Q) -> (r: bool) ensures r == self@.contains_key(key_view(k)) { unimplemented!() }
+    #[verifier::external_body]
+    pub fn insert(&mut self, k: String, v: V) -> (r: Option<V>) ensures final(self)@ == old(self)@.insert(k@, v) { unimplemented!() }
+    #[verifier::external_body]
+    pub fn get<Q: ?Sized>(&self, k: &Q) -> (r: Option<&V>)
+        ensures r matches Some(v) ==> self@.contains_key(key_view(k)) && *v == self@[key_view(k)],
+                r is None ==> !self@.contains_key(key_view(k)),
+    { unimplemented!() }
+    #[verifier::external_body]
+    pub fn entries(&self) -> (r: Vec<(&String, &V)>)
+        ensures forall|i: int| 0 <= i < r@.len() ==> self@.contains_key(#[trigger] r@[i].0@) && *r@[i].1 == self@[r@[i].0@],
+                forall|k: Seq<char>| self@.contains_key(k) ==> exists|i: int| 0 <= i < r@.len() && #[trigger] r@[i].0@ == k,
+                ent_keys(r@) == canonical(self@.dom()),
+    { unimplemented!() }
+}
+
+// BTreeMap<String, String> (the `deps` of a unit): iteration in sorted key order
 impl DepMap {
     pub uninterp spec fn view(&self) -> Map<Seq<char>, Seq<char>>;
     #[verifier::external_body]
     pub fn entries(&self) -> (r: Vec<(&String, &String)>)
         ensures forall|i: int| 0 <= i < r@.len() ==> self@.contains_key(#[trigger] r@[i].0@) && r@[i].1@ == self@[r@[i].0@],
                 forall|k: Seq<char>| self@.contains_key(k) ==> exists|i: int| 0 <= i < r@.len() && #[trigger] r@[i].0@ == k,
+                ent_keys(r@) == canonical(self@.dom()),
     { unimplemented!() }
+}
+// the error of the dependency consistency check, naming the dependent and the dependency
+#[verifier::external_body]
+pub fn compile_error_dep(pkg: &String, dep: &String) -> (r: CompilationError)
+    ensures r.is_dep(), r.pkg() == pkg@, r.dep() == dep@,
+{ unimplemented!() }
+
+// ---- C13: WHICH consistency error link_cores reports is a function of its inputs ----
+// the check link_cores makes for one recorded dependency
+pub open spec fn dep_bad(m: Map<Seq<char>, CoreUnit>, u: CoreUnit, d: Seq<char>) -> bool {
+    !m.contains_key(d) || m[d].interface.interface_hash@ != u.deps@[d]
+}
+pub open spec fn unit_clean(m: Map<Seq<char>, CoreUnit>, k: Seq<char>) -> bool {
+    m.contains_key(k) && forall|d: Seq<char>| (#[trigger] m[k].deps@.contains_key(d)) ==> !dep_bad(m, m[k], d)
+}
+// (p, d) is the FIRST failing (package, dependency) pair in sorted package order, then sorted dependency order
+pub open spec fn first_bad(m: Map<Seq<char>, CoreUnit>, cores: Seq<CoreUnit>, p: Seq<char>, d: Seq<char>, i: int, j: int) -> bool {
+    let names = canonical(m.dom());
+    &&& indexed(m, cores, cores.len() as int)
+    &&& 0 <= i < names.len() && names[i] == p && m.contains_key(p)
+    &&& ({ let ds = canonical(m[p].deps@.dom());
+           &&& 0 <= j < ds.len() && ds[j] == d && m[p].deps@.contains_key(d)
+           &&& forall|i2: int| 0 <= i2 < i ==> unit_clean(m, #[trigger] names[i2])
+           &&& forall|j2: int| 0 <= j2 < j ==> !dep_bad(m, m[p], #[trigger] ds[j2])
+           &&& dep_bad(m, m[p], d) })
 }
 
 #[verifier::external_body] pub struct LinkOutput { _p: u64 }
@@ -46,12 +102,15 @@ pub fn string_ne(a: &String, b: &String) -> (r: bool) ensures r == (a@ != b@) { 
 pub fn core_file_has_main(f: &CoreFile) -> (r: bool) { unimplemented!() }
 // separate::topo_sort (Kahn's algorithm over BTreeMaps; NOT verified): on success the order lists every package
 #[verifier::external_body]
-pub fn topo_sort(cores: &HashMap<String, CoreUnit>) -> (r: Result<Vec<String>, CompilationError>)
+pub fn topo_sort(cores: &BYNAME_MAP<String, CoreUnit>) -> (r: Result<Vec<String>, CompilationError>)
     ensures r matches Ok(o) ==> forall|k: Seq<char>| cores@.contains_key(k) ==> exists|t: int| 0 <= t < o@.len() && (#[trigger] o@[t])@ == k,
+            r matches Err(e) ==> !e.is_dep(),
 { unimplemented!() }
 // everything link_cores does after the consistency checks (mono, lift, anf, go): outside this unit
 #[verifier::external_body]
-pub fn link_rest(by_name: HashMap<String, CoreUnit>, order: Vec<String>) -> (r: Result<LinkOutput, CompilationError>) { unimplemented!() }
+pub fn link_rest(by_name: BYNAME_MAP<String, CoreUnit>, order: Vec<String>) -> (r: Result<LinkOutput, CompilationError>)
+    ensures r matches Err(e) ==> !e.is_dep(),
+{ unimplemented!() }
 
 // ---- C15: what `link` must guarantee about its inputs when it succeeds ----
 // the hash a dependent recorded is the linked dependency's interface hash (as stored, or as recomputed from its contents)
